@@ -3,6 +3,7 @@ package main
 // C14 — a relay only narrows what the ends negotiate, and recovers after every transfer.
 
 import (
+	"fmt"
 	"go/token"
 	"go/types"
 	"reflect"
@@ -223,6 +224,51 @@ func c14R2(c *Ctx) {
 	if n < 10 {
 		c.undecided("sendConfig/keys", "fewer config keys than expected")
 	}
+	// a relay re-marshals the decoded struct: a field tagged omitempty disappears when the server sent its zero value
+	// ("timeout":0 = wait for ever, "binary":false ...) and the client falls back to its own default
+	for _, tn := range []string{"transferConfig", "transferAction"} {
+		st, _ := c.namedType(tn).Underlying().(*types.Struct)
+		if st == nil {
+			continue
+		}
+		for i := 0; i < st.NumFields(); i++ {
+			tag := reflect.StructTag(st.Tag(i)).Get("json")
+			parts := strings.Split(tag, ",")
+			if parts[0] == "" || parts[0] == "-" {
+				continue
+			}
+			omit := false
+			for _, o := range parts[1:] {
+				if o == "omitempty" || o == "omitzero" {
+					omit = true
+				}
+			}
+			c.check(!omit, tn+"/no-omitempty."+parts[0], "", "the relay re-emits this key even with its zero value", "key '"+parts[0]+"' of "+tn+" is omitted by a relay when it has its zero value: the next hop falls back to its own default instead of what the other end sent")
+		}
+	}
+	// the relay decodes the client's action into the same defaults as a server does (a default that differs — a protocol
+	// the client never offered — is forwarded as if the client had sent it)
+	lits := map[string]map[string]string{}
+	for _, fn := range []string{"trzszTransfer.recvAction", "TrzszRelay.recvAction"} {
+		rf := c.fn(fn)
+		lits[fn] = map[string]string{}
+		eachInstr(rf, func(in ssa.Instruction) {
+			stI, ok := in.(*ssa.Store)
+			if !ok {
+				return
+			}
+			fa, ok := stI.Addr.(*ssa.FieldAddr)
+			if !ok {
+				return
+			}
+			if al, isAl := fa.X.(*ssa.Alloc); !isAl || !strings.Contains(al.Type().String(), "transferAction") {
+				return
+			}
+			lits[fn][fieldName(fa)] = stI.Val.String()
+		})
+	}
+	same := len(lits["trzszTransfer.recvAction"]) > 0 && reflect.DeepEqual(lits["trzszTransfer.recvAction"], lits["TrzszRelay.recvAction"])
+	c.check(same, "recvAction/relay-defaults=server-defaults", "", fmt.Sprintf("relay and server decode the action over the same defaults %v", lits["trzszTransfer.recvAction"]), fmt.Sprintf("the relay decodes the client's action over defaults %v, a server over %v", lits["TrzszRelay.recvAction"], lits["trzszTransfer.recvAction"]))
 	// the action struct: every capability the client can announce has a tag (json.Marshal of the same struct on both hops)
 	at := structTags(c.namedType("transferAction"))
 	for _, k := range []string{"binary", "support_dir", "fork", "protocol", "tunnel", "newline", "confirm", "version"} {
